@@ -1,5 +1,6 @@
-(** C04: last owner gone => Dropped; never while owned (Layer R) -- PARTIAL (three of the five clauses of the monitor
-    proved for every program; the census behind them closed).
+(** C04: last owner gone => Dropped; never while owned (Layer R) -- PARTIAL (four of the five clauses of the monitor
+    proved for every program: the whole check at `notify a Dropped` and the whole check at `runret`; the census behind
+    them closed; open: the slab.len() check).
     C04_ok (rev t) = okx chkN t && okx chkR t && okx chkS t  ([C04_monitor_split]: the monitor is a total state
     function [st04] plus three checks: at `notify a Dropped`, at `runret`, at `slablen`).
     Proved for every program and fuel, global / thread-local deferrer, fewer than CMAX-1 events (the packed owner count
@@ -18,12 +19,16 @@
       [C04_notify_check]               the whole of chkN, with [C04_drop_takes_queue_place]: at `notify a Dropped` every
           call to a that was pending when its last visible owner went has been started or discarded (the termination
           takes the drop's place in the main queue).
-    Not yet proved (validated by ./check C04): second clause of chkR (slab children of a terminated parent terminate
-    in the same run), chkS (slab.len()). *)
+      [C04_runret_check]               the whole of chkR, with [C04_slab_children_terminate]: when run returns, the slab
+          children (ActorOwnSlab) of every notified parent are notified too (the ownership tree terminates in the same run).
+          Behind it (R/C04W*.v, C04K*.v): a wrapper notifier refers to the slab entry that holds its child; at most
+          one slab-removal item per entry, and only after the child's notifier was invoked; a child that left the slab
+          of a live parent is notified; inside run a Stakker is alive; a slab child has one parent.
+    Not yet proved (validated by ./check C04): chkS (slab.len() counts exactly the children not yet terminated). *)
 From Coq Require Import ZArith NArith List Bool.
 Import ListNotations.
 From Stk Require Import Lib.U Gen.SrcCount R.Syntax R.Rt R.Mon R.Count R.OneStep.
-From Stk Require Import R.Own R.OwnLaw R.OwnVis R.C04Mon R.C04Base R.C04A3 R.C04B2 R.C04N.
+From Stk Require Import R.Own R.OwnLaw R.OwnVis R.C04Mon R.C04Base R.C04A3 R.C04B2 R.C04N R.C04K2.
 Local Open Scope Z_scope.
 
 Theorem C04_owner_count_partial :
@@ -80,6 +85,47 @@ Theorem C04_last_owner_terminates : forall (p : list top) (fuel : nat) (t : list
   exec DGlobal fuel p = Done t -> Z.of_nat (length t) < CMAX - 1 -> okx chkR1 (rev t) = true.
 Proof. exact C04_last_owner_terminates_proved. Qed.
 Print Assumptions C04_last_owner_terminates.
+
+(* the slab children of a notified parent are notified by the time run returns *)
+Theorem C04_slab_children_terminate : forall (p : list top) (fuel : nat) (t : list ev),
+  exec DGlobal fuel p = Done t -> Z.of_nat (length t) < CMAX - 1 -> okx chkR2 (rev t) = true.
+Proof. exact C04_slab_children_terminate_proved. Qed.
+Print Assumptions C04_slab_children_terminate.
+
+(* the whole check made when run returns *)
+Theorem C04_runret_check : forall (p : list top) (fuel : nat) (t : list ev),
+  exec DGlobal fuel p = Done t -> Z.of_nat (length t) < CMAX - 1 -> okx chkR (rev t) = true.
+Proof. exact C04_runret_check_proved. Qed.
+Check C04_runret_check.
+Print Assumptions C04_runret_check.
+
+(* chkR is the conjunction of its two clauses *)
+Theorem C04_runret_split : forall t, okx chkR t = okx chkR1 t && okx chkR2 t.
+Proof. exact chkR_okx. Qed.
+Print Assumptions C04_runret_split.
+
+(* satisfiable, non-trivially: a parent with two slab children stops, both children are notified Dropped in the same run;
+   a parent with one slab child loses its last owner *)
+Definition c04_slab : list top :=
+  [TNew 0;
+   TDo [ANewActor 1 1 None; ACallPrep 1 (Clo 1 0 0 [] []) true;
+        ACall 1 (Clo 2 0 0 [] [ASlabAdd 5 2 None; ASlabAdd 6 3 None; ASlabLen; AStop])];
+   TRun 1 false;
+   TDo [ANewActor 7 4 None; ACallPrep 7 (Clo 3 0 0 [] []) true; ACall 7 (Clo 4 0 0 [] [ASlabAdd 8 5 None; ASlabLen])];
+   TRun 2 false;
+   TDo [ADropH 7];
+   TRun 3 false].
+
+Example C04_slab_example :
+  exists t, exec DGlobal 3000 c04_slab = Done t /\ Z.of_nat (length t) < CMAX - 1 /\ C04_ok t = true /\
+            In (ESlabAdd 1 2) t /\ In (ESlabAdd 1 3) t /\ In (ESlabLen 1 2) t /\ In (ENotify 1 (Some CStop)) t /\
+            In (ENotify 2 (Some CDrop)) t /\ In (ENotify 3 (Some CDrop)) t /\
+            In (ESlabAdd 4 5) t /\ In (ENotify 4 (Some CDrop)) t /\ In (ENotify 5 (Some CDrop)) t /\
+            okx chkR2 (rev t) = true.
+Proof.
+  eexists. split; [vm_compute; reflexivity|]. split; [vm_compute; reflexivity|]. split; [vm_compute; reflexivity|].
+  repeat (split; [simpl; tauto|]). vm_compute; reflexivity.
+Qed.
 
 (* satisfiable, non-trivially: owned() / anon() owners dropped in any order with a call pending, a kill! holding a hidden
    owner past the last visible one *)
